@@ -84,7 +84,7 @@ PROPS.update({
                    'generator expression read as the list it yields.',
         functions=['Core.Environment.__init__', 'Core.Environment.add_agent', 'Core.Environment.remove_agent',
                    'Core.Environment.get_agent', 'Core.Environment.__len__', 'Core.Environment.__iter__',
-                   'Core.Agent.__init__', 'Environments.SpaceWorld.__init__', 'Environments.SpaceWorld.add_agent',
+                   'Core.Environment.get_agents', 'Core.Agent.__init__', 'Environments.SpaceWorld.__init__', 'Environments.SpaceWorld.add_agent',
                    'Environments.SpaceWorld.remove_agent'],
         assumptions=ENV_ASSUME),
     'C13': dict(
@@ -362,7 +362,7 @@ PROPS.update({
                    'themselves deterministic; seed=None is excluded (OS entropy).',
         functions=['Core.Model.__init__', 'Core.Environment.get_random_agent', 'Core.Environment.shuffle',
                    'Core.Environment.get_agents'],
-        scans=[dict(kind='reads'), dict(kind='writers', table={'random': WRITERS['random']})],
+        scans=[dict(kind='reads'), dict(kind='shared-state'), dict(kind='writers', table={'random': WRITERS['random']})],
         assumptions=ENV_ASSUME + ['random.Random: deterministic function of seed and call history, independent of the '
                                   'global generator', 'user systems / agents are deterministic given the model generator']),
 })
@@ -435,8 +435,9 @@ DEPS = {
             'Collectors.AgentCollector.__init__', 'Collectors.FileCollector.__init__'],
     'C02': SCHED + ['Core.Environment.__init__', 'Collectors.Collector.__init__', 'Collectors.AgentCollector.__init__',
                     'Collectors.FileCollector.__init__', 'Core.SystemManager.execute_systems#dynamic'],
+    # "listing" (get_agents) agrees with lookup, length and iteration: its filter goes through has_component
     'C04': ['Core.SystemManager.register_component', 'Core.SystemManager.deregister_component',
-            'Core.Agent.add_component', 'Core.Agent.remove_component'],
+            'Core.Agent.add_component', 'Core.Agent.remove_component', 'Core.Agent.has_component'],
     'C05': SCHED,
     'C06': SCHED + ['Core.Environment.__init__'],
     'C07': ENVW + ['Core.SystemManager.__init__', 'Core.Agent.has_component', 'Core.Environment.get_agents',
